@@ -1535,6 +1535,27 @@ func (in *Interp) elemAddr(fr *frame, arr *ArrObj, off, n int, idx *Term, et typ
 
 // concretize forks over values 0..n-1 of idx.
 func (in *Interp) concretize(fr *frame, idx *Term, n int) int {
+	if vals := possibleValues(idx, 64); vals != nil {
+		// only the values the index term can take at all
+		var last = -1
+		for _, v := range vals {
+			if v >= uint64(n) {
+				continue
+			}
+			c := Eq(idx, BV(idx.w, v))
+			if c == FalseT {
+				continue
+			}
+			if c == TrueT || in.branch(c, fr) {
+				return int(v)
+			}
+			last = int(v)
+		}
+		if last >= 0 {
+			// all candidates refuted on this path: infeasible
+			panic(pathEnd{"index has no feasible value"})
+		}
+	}
 	for i := 0; i < n-1; i++ {
 		c := Eq(idx, BV(idx.w, uint64(i)))
 		if c == TrueT {
